@@ -43,13 +43,16 @@ def gen_classes(rng):
                 b = rng.choice(pool)
                 if b not in bases:
                     bases.append(b)
+            # a class whose __module__ is not a string (created by `type(name, bases, {...})` in some RPC / deserialisation
+            # layers): eliot names exception classes "<module>.<name>" in several places
+            odd = rng.random() < 0.15
             try:
-                k = type("C%d" % i, tuple(pyc[b] for b in bases), {"__module__": "vmod"})
+                k = type("C%d" % i, tuple(pyc[b] for b in bases), {"__module__": None if odd else "vmod"})
             except TypeError:
                 continue
             pyc[i] = k
             ids[k] = i
-            rows.append(dict(id=i, name="C%d" % i, bases=bases, falsy=rng.random() < 0.25))
+            rows.append(dict(id=i, name="C%d" % i, bases=bases, falsy=rng.random() < 0.25, oddmod=odd))
             break
     table = []
     for cid, k in sorted(pyc.items()):
@@ -59,6 +62,7 @@ def gen_classes(rng):
             if r["id"] == cid:
                 row["bases"] = r["bases"]
                 row["falsy"] = r["falsy"]
+                row["oddmod"] = r["oddmod"]
         table.append(row)
     return table, pyc
 
@@ -152,6 +156,8 @@ class PG:
                 start.append(["missing", self.sid()])
             success = [[k, self.sid()] for k in rng.sample(KEYS, rng.randint(0, 2))]
             sers = dict(start=start, success=success)
+            if rng.random() < 0.25:
+                f = f + [["undeclared", {"n": rng.randint(0, 9)}]]  # a field the type does not declare: passed on untouched
         self.nact = getattr(self, "nact", 0) + 1
         atype = "%s#%d" % (rng.choice(["app:a", "app:b", "app:c"]), self.nact)
         if sers is None and rng.random() < 0.04:
@@ -174,6 +180,8 @@ class PG:
             sers = [[k, self.sid()] for k, _ in f]
             if rng.random() < self.prof["p_missing_field"]:
                 sers.append(["missing", self.sid()])
+            if rng.random() < 0.25:
+                f = f + [["undeclared", {"n": rng.randint(0, 9)}]]
         ms = dict(mtype=rng.choice(["app:m1", "app:m2"]), fields=f, sers=sers)
         if sers is not None:
             seen.append(ms)
